@@ -408,6 +408,18 @@ func c22Malformed(n ast.Node) bool {
 	return false
 }
 
+// c22Desc describes a child without printing addresses (violation texts must be reproducible)
+func c22Desc(v reflect.Value) string {
+	k := c22Key(v)
+	if k == nil {
+		return "<nil>"
+	}
+	if id, ok := k.(*ast.Ident); ok {
+		return "*ast.Ident(" + id.Name + ")"
+	}
+	return fmt.Sprintf("%T", k)
+}
+
 func c22SameChild(a, b reflect.Value) bool {
 	ka, kb := c22Key(a), c22Key(b)
 	return ka == kb
@@ -439,7 +451,7 @@ func c22CompareShallow(tn string, a, b reflect.Value, tags map[string]bool) *c22
 			}
 		case "child":
 			if !c22SameChild(fa, fb) {
-				return &c22viol{name + "-not-preserved", fmt.Sprintf("%s: child %v became %v", name, fa.Interface(), fb.Interface())}
+				return &c22viol{name + "-not-preserved", fmt.Sprintf("%s: child %s became %s", name, c22Desc(fa), c22Desc(fb))}
 			}
 		case "childList":
 			if fa.Len() != fb.Len() {
@@ -850,7 +862,26 @@ func (g *c22rgen) node(t reflect.Type, depth int) reflect.Value {
 
 // ---------------------------------------------------------------- Exec
 
+// The shared harness keeps only the first 50 violations of a run.  So that a new kind of violation can
+// never be crowded out by repetitions of an already reported one, each key is reported as a violation
+// at most c22MaxPerKey times per run; further occurrences are counted under the tag "repeat-<key>".
+const c22MaxPerKey = 2
+
+var c22KeyCount = map[string]int{}
+
 func c22Exec(op string) Result {
+	res := c22Exec1(op)
+	if res.Key != "" {
+		c22KeyCount[res.Key]++
+		if c22KeyCount[res.Key] > c22MaxPerKey {
+			res.Tags = append(res.Tags, "repeat-"+res.Key)
+			res.Viol, res.Key = "", ""
+		}
+	}
+	return res
+}
+
+func c22Exec1(op string) Result {
 	f := strings.Fields(op)
 	if len(f) < 2 {
 		return Result{Out: "bad-op"}
